@@ -75,8 +75,8 @@ theorem readBlocks_eq_readBytes (blocks : List (Nat × Bytes)) (off n : Nat)
       simp only [Bool.not_eq_true] at hf
       simp [hf, hn, ih']
 
-theorem prim_reader (blocks : List (Nat × Bytes)) (name : String) (sz : Nat) (sg be : Bool) (a : Int)
-    (h : readerOf name = some (sz, sg, be)) : prim blocks name [a] = readPrim blocks sz sg be a := by
+theorem prim_reader {fo : FloatOps} (blocks : List (Nat × Bytes)) (name : String) (sz : Nat) (sg be : Bool) (a : Int)
+    (h : readerOf name = some (sz, sg, be)) : prim fo blocks name [a] = readPrim blocks sz sg be a := by
   simp only [prim, h]
 
 /-! ### counting -/
